@@ -332,3 +332,398 @@ Proof.
       - apply negb_true_iff in H2. exact H2. }
     rewrite Hpar. destruct (resolveAbsoluteImport_not_module pr p Em) as [H|H]; rewrite H; auto.
 Qed.
+
+(* ---------------------------------------------------------------------------------------- *)
+(* 6. re-exports: ResolveReExport against the bindings of the package's __init__              *)
+(* ---------------------------------------------------------------------------------------- *)
+(* the entries one statement of P/__init__.py puts into the exports map *)
+Definition stmt_exports (P : path) (s : import_stmt) : list (name * path) :=
+  match reexport_source P (i_form s) with
+  | Some (src, ns) => if path_eqb src P then [] else map (fun x => (in_bound x, src)) ns
+  | None => []
+  end.
+
+Lemma exports_of_flat : forall P init, exports_of P init = flat_map (stmt_exports P) (m_imports init).
+Proof. reflexivity. Qed.
+
+(* names an __init__ takes from its own package: "from . import n" / "from P import n" *)
+Definition stmt_self_names (init : pymodule) (s : import_stmt) : list name :=
+  match from_target init (i_form s) with
+  | Some (t, ns) => if path_eqb t (m_path init) then map in_bound ns else []
+  | None => []
+  end.
+
+Definition self_names (init : pymodule) : list name := flat_map (stmt_self_names init) (m_imports init).
+
+(* the exports map read at n (later entries overwrite), and the last binding of n *)
+Definition model_lookup (P : path) (l : list import_stmt) (n : name) : option path :=
+  option_map snd (find (fun e : name * path => N.eqb (fst e) n) (rev (flat_map (stmt_exports P) l))).
+
+Definition py_lookup (pr : project) (init : pymodule) (l : list import_stmt) (n : name) : option path :=
+  last_some (fun s => binding_source pr init s n) l.
+
+Lemma rel_base_nonempty : forall P lv, P <> [] ->
+  rel_base P lv = if Nat.ltb (lv - 1) (length P) then Some (firstn (length P - (lv - 1)) P) else None.
+Proof. intros P lv H. destruct P; [congruence|reflexivity]. Qed.
+
+(* processImportFrom computes the base package of a relative import the way _resolve_name does *)
+Lemma reexport_source_rel : forall P lv q ns, P <> [] ->
+  reexport_source P (ImportRel lv q ns) =
+  match q with
+  | [] => None
+  | _ => match rel_base P lv with Some b => Some (b ++ q, ns) | None => None end
+  end.
+Proof.
+  intros P lv q ns HP. unfold reexport_source. destruct q as [|y q']; [reflexivity|].
+  rewrite (rel_base_nonempty P lv HP).
+  assert (Hlen : 0 < length P) by (destruct P; [congruence|simpl; lia]).
+  destruct (Nat.eqb lv 1) eqn:E1.
+  - apply Nat.eqb_eq in E1. subst lv. replace (1 - 1) with 0 by reflexivity.
+    assert (E : Nat.ltb 0 (length P) = true) by (apply Nat.ltb_lt; exact Hlen). rewrite E, Nat.sub_0_r, firstn_all. reflexivity.
+  - apply Nat.eqb_neq in E1. destruct (Nat.leb lv (length P)) eqn:E2.
+    + apply Nat.leb_le in E2. assert (E : Nat.ltb (lv - 1) (length P) = true) by (apply Nat.ltb_lt; lia). rewrite E.
+      destruct lv as [|lv'].
+      * rewrite (firstn_all2 (n := length P - 0 + 1) P) by lia. replace (0 - 1) with 0 by reflexivity.
+        rewrite Nat.sub_0_r, firstn_all. reflexivity.
+      * replace (length P - S lv' + 1) with (length P - (S lv' - 1)) by lia. reflexivity.
+    + apply Nat.leb_gt in E2. assert (E : Nat.ltb (lv - 1) (length P) = false) by (apply Nat.ltb_ge; lia). rewrite E. reflexivity.
+Qed.
+
+Lemma find_exports_map : forall (t : path) n ns,
+  option_map snd (find (fun e : name * path => N.eqb (fst e) n) (rev (map (fun x => (in_bound x, t)) ns))) =
+  match find (fun x => N.eqb (in_bound x) n) (rev ns) with Some _ => Some t | None => None end.
+Proof.
+  intros t n ns. rewrite <- map_rev. induction (rev ns) as [|x l IH]; simpl; [reflexivity|].
+  destruct (N.eqb (in_bound x) n); [reflexivity|exact IH].
+Qed.
+
+Lemma stmt_exports_keys : forall P s e, In e (stmt_exports P s) ->
+  In (fst e) (match i_form s with ImportAbs _ => [] | ImportFrom _ ns => map in_bound ns | ImportRel _ _ ns => map in_bound ns end).
+Proof.
+  intros P s e. unfold stmt_exports. destruct (i_form s) as [p|q ns|lv q ns]; simpl.
+  - intros [].
+  - destruct (strict_prefixb P q); [|intros []]. destruct (path_eqb q P); [intros []|].
+    intro H. apply in_map_iff in H. destruct H as [x [Hx Hi]]. subst e. simpl. apply in_map. exact Hi.
+  - destruct q as [|y q']; [intros []|].
+    destruct (Nat.eqb lv 1); [|destruct (Nat.leb lv (length P)); [|intros []]];
+      (match goal with |- context [path_eqb ?a P] => destruct (path_eqb a P) end; [intros []|];
+       intro H; apply in_map_iff in H; destruct H as [x [Hx Hi]]; subst e; simpl; apply in_map; exact Hi).
+Qed.
+
+Section OneInit.
+  Variable pr : project.
+  Variable init : pymodule.
+  Hypothesis Hpkg : m_is_pkg init = true.
+  Hypothesis HP : m_path init <> [].
+
+  Lemma package_of_init : package_of init = m_path init.
+  Proof. unfold package_of. rewrite Hpkg. reflexivity. Qed.
+
+  (* a statement that takes names of the package itself binds nothing new but submodules *)
+  Lemma binding_self : forall s ns n,
+    i_tc s = false -> binds_at_module_level (i_pos s) = true ->
+    from_target init (i_form s) = Some (m_path init, ns) ->
+    forallb (fun x => N.eqb (in_orig x) (in_bound x)) ns = true ->
+    binding_source pr init s n = None \/
+    (binding_source pr init s n = Some (m_path init ++ [n]) /\ is_module pr (m_path init ++ [n]) = true /\
+     In n (map in_bound ns)).
+  Proof.
+    intros s ns n Htc Hb Hft Hun. unfold binding_source. rewrite Htc, Hb, Hft. cbn [orb negb].
+    destruct (find (fun x => N.eqb (in_bound x) n) (rev ns)) as [x|] eqn:Ef; [|left; reflexivity].
+    apply find_some in Ef. destruct Ef as [Hin Hbn]. apply in_rev in Hin. apply N.eqb_eq in Hbn.
+    rewrite forallb_forall in Hun. specialize (Hun x Hin). apply N.eqb_eq in Hun. rewrite Hun, Hbn.
+    destruct (is_module pr (m_path init ++ [n])) eqn:Em.
+    - right. repeat split. rewrite <- Hbn. apply in_map. exact Hin.
+    - left. rewrite path_eqb_refl. reflexivity.
+  Qed.
+
+  (* a statement that takes names of another module binds every name to that module *)
+  Lemma binding_other : forall s t ns n,
+    i_tc s = false -> binds_at_module_level (i_pos s) = true ->
+    from_target init (i_form s) = Some (t, ns) -> path_eqb t (m_path init) = false -> is_module pr t = true ->
+    forallb (fun x => negb (is_module pr (t ++ [in_orig x]))) ns = true ->
+    binding_source pr init s n =
+    match find (fun x => N.eqb (in_bound x) n) (rev ns) with Some _ => Some t | None => None end.
+  Proof.
+    intros s t ns n Htc Hb Hft Hne Hm Hns. unfold binding_source. rewrite Htc, Hb, Hft. cbn [orb negb].
+    destruct (find (fun x => N.eqb (in_bound x) n) (rev ns)) as [x|] eqn:Ef; [|reflexivity].
+    apply find_some in Ef. destruct Ef as [Hin _]. apply in_rev in Hin.
+    rewrite forallb_forall in Hns. specialize (Hns x Hin). apply negb_true_iff in Hns. rewrite Hns, Hne, Hm. reflexivity.
+  Qed.
+
+  (* the three kinds of statement of a regular __init__ *)
+  Lemma regular_cases : forall s, reexport_regular pr init s = true ->
+    ((forall n, binding_source pr init s n = None) /\ stmt_exports (m_path init) s = [] /\ stmt_self_names init s = []) \/
+    (exists ns, i_tc s = false /\ binds_at_module_level (i_pos s) = true /\
+       from_target init (i_form s) = Some (m_path init, ns) /\
+       forallb (fun x => N.eqb (in_orig x) (in_bound x)) ns = true /\ stmt_exports (m_path init) s = []) \/
+    (exists t ns, i_tc s = false /\ binds_at_module_level (i_pos s) = true /\
+       from_target init (i_form s) = Some (t, ns) /\ path_eqb t (m_path init) = false /\ is_module pr t = true /\
+       forallb (fun x => negb (is_module pr (t ++ [in_orig x]))) ns = true /\
+       stmt_exports (m_path init) s = map (fun x => (in_bound x, t)) ns).
+  Proof.
+    intros s Hreg. unfold reexport_regular in Hreg. unfold stmt_exports, stmt_self_names, binding_source.
+    destruct (i_form s) as [p|q ns|lv q ns] eqn:Ef.
+    - left. split; [|split; reflexivity]. intro n. simpl. destruct (i_tc s || negb (binds_at_module_level (i_pos s))); reflexivity.
+    - right. cbn [from_target] in *. apply andb_true_iff in Hreg. destruct Hreg as [Hreg H3].
+      apply andb_true_iff in Hreg. destruct Hreg as [Htc Hb]. apply negb_true_iff in Htc.
+      destruct (path_eqb q (m_path init)) eqn:Eq.
+      + left. apply path_eqb_eq in Eq. subst q. exists ns. repeat split; auto.
+        unfold reexport_source. rewrite strict_prefixb_irrefl. reflexivity.
+      + right. apply andb_true_iff in H3. destruct H3 as [H3 Hns]. apply andb_true_iff in H3. destruct H3 as [Hsp Hm].
+        exists q, ns. repeat split; auto. unfold reexport_source. rewrite Hsp, Eq. reflexivity.
+    - right. cbn [from_target] in *. rewrite package_of_init in *.
+      destruct (rel_base (m_path init) lv) as [b|] eqn:Eb; [|discriminate].
+      apply andb_true_iff in Hreg. destruct Hreg as [Hreg H3].
+      apply andb_true_iff in Hreg. destruct Hreg as [Htc Hb]. apply negb_true_iff in Htc.
+      rewrite (reexport_source_rel (m_path init) lv q ns HP), Eb.
+      destruct (path_eqb (b ++ q) (m_path init)) eqn:Eq.
+      + left. apply path_eqb_eq in Eq. exists ns. rewrite Eq. repeat split; auto.
+        destruct q; [reflexivity|]. rewrite path_eqb_refl. reflexivity.
+      + right. apply andb_true_iff in H3. destruct H3 as [H3 Hns]. apply andb_true_iff in H3. destruct H3 as [Hq Hm].
+        exists (b ++ q), ns. destruct q as [|y q']; [discriminate|]. rewrite Eq. repeat split; auto.
+  Qed.
+
+  Definition shadow_case (n : name) (po : option path) (names : list name) : Prop :=
+    po = Some (m_path init ++ [n]) /\ is_module pr (m_path init ++ [n]) = true /\ In n names.
+
+  Lemma stmt_reexport : forall s n, reexport_regular pr init s = true ->
+    binding_source pr init s n = model_lookup (m_path init) [s] n \/
+    shadow_case n (binding_source pr init s n) (stmt_self_names init s).
+  Proof.
+    intros s n Hreg. unfold model_lookup. cbn [flat_map]. rewrite app_nil_r.
+    destruct (regular_cases s Hreg) as [[Hn [He _]]|[[ns [Htc [Hb [Hft [Hun He]]]]]|[t [ns [Htc [Hb [Hft [Hne [Hm [Hns He]]]]]]]]]].
+    - left. rewrite He, Hn. reflexivity.
+    - rewrite He. destruct (binding_self s ns n Htc Hb Hft Hun) as [H|[H1 [H2 H3]]].
+      + left. rewrite H. reflexivity.
+      + right. split; [exact H1|]. split; [exact H2|]. unfold stmt_self_names. rewrite Hft, path_eqb_refl. exact H3.
+    - left. rewrite He, find_exports_map. apply (binding_other s t ns n); assumption.
+  Qed.
+
+  Lemma model_lookup_cons : forall s l n,
+    model_lookup (m_path init) (s :: l) n =
+    match model_lookup (m_path init) l n with Some b => Some b | None => model_lookup (m_path init) [s] n end.
+  Proof.
+    intros s l n. unfold model_lookup. cbn [flat_map]. rewrite app_nil_r, rev_app_distr, find_app.
+    destruct (find (fun e : name * path => N.eqb (fst e) n) (rev (flat_map (stmt_exports (m_path init)) l))); reflexivity.
+  Qed.
+
+  Lemma list_reexport : forall l n, (forall s, In s l -> reexport_regular pr init s = true) ->
+    py_lookup pr init l n = model_lookup (m_path init) l n \/
+    shadow_case n (py_lookup pr init l n) (flat_map (stmt_self_names init) l).
+  Proof.
+    intros l n. induction l as [|s l IH]; intro Hreg.
+    - left. reflexivity.
+    - rewrite model_lookup_cons. unfold py_lookup. cbn [last_some flat_map]. fold (py_lookup pr init l n).
+      destruct IH as [IH|[H1 [H2 H3]]]; [intros s' Hs'; apply Hreg; right; exact Hs'| |].
+      + rewrite IH. destruct (model_lookup (m_path init) l n) as [b|]; [left; reflexivity|].
+        destruct (stmt_reexport s n (Hreg s (or_introl eq_refl))) as [H|[H1 [H2 H3]]]; [left; exact H|].
+        right. split; [exact H1|]. split; [exact H2|]. apply in_or_app. left. exact H3.
+      + right. rewrite H1. split; [reflexivity|]. split; [exact H2|]. apply in_or_app. right. exact H3.
+  Qed.
+End OneInit.
+
+Lemma existsb_false : forall {A} (f : A -> bool) l x, existsb f l = false -> In x l -> f x = false.
+Proof.
+  intros A f l x H Hin. destruct (f x) eqn:E; [|reflexivity].
+  assert (Hc : existsb f l = true) by (apply existsb_exists; exists x; auto). congruence.
+Qed.
+
+Lemma regular_all : forall pr init s, class_irregular_reexport pr = false -> In init pr -> m_is_pkg init = true ->
+  In s (m_imports init) -> reexport_regular pr init s = true.
+Proof.
+  intros pr init s Hc Hin Hpk Hs. pose proof (existsb_false _ _ init Hc Hin) as H. cbv beta in H.
+  rewrite Hpk in H. cbn [andb] in H. apply negb_false_iff in H. rewrite forallb_forall in H. apply H. exact Hs.
+Qed.
+
+(* findInitFile finds the package; names outside a non-empty __all__ are not in the map anyway
+   when __all__ lists every name the __init__ binds *)
+Lemma ResolveReExport_lookup : forall pr init n, nodup_paths (module_names pr) = true ->
+  class_all_hides pr = false -> In init pr -> m_is_pkg init = true ->
+  ResolveReExport pr (m_path init) n = model_lookup (m_path init) (m_imports init) n.
+Proof.
+  intros pr init n Hn Hall Hin Hpk. unfold ResolveReExport. rewrite (find_init_spec pr _ Hn), (nodup_find pr init Hn Hin), Hpk.
+  rewrite exports_of_flat. unfold model_lookup.
+  destruct (all_allows init n) eqn:Ea.
+  - reflexivity.
+  - destruct (find (fun e : name * path => N.eqb (fst e) n) (rev (flat_map (stmt_exports (m_path init)) (m_imports init)))) as [e|] eqn:Ef;
+      [exfalso|reflexivity].
+    apply find_some in Ef. destruct Ef as [He Hk]. apply in_rev in He. apply in_flat_map in He. destruct He as [s [Hs He]].
+    apply stmt_exports_keys in He. apply N.eqb_eq in Hk. rewrite Hk in He.
+    assert (Hb : In n (bound_names init)).
+    { unfold bound_names. apply in_flat_map. exists s. split; assumption. }
+    unfold all_allows in Ea. pose proof (existsb_false _ _ init Hall Hin) as H. cbv beta in H. rewrite Hpk in H. cbn [andb] in H.
+    destruct (m_all init) as [[|a l]|]; try discriminate.
+    pose proof (existsb_false _ _ n H Hb) as H'. cbv beta in H'. rewrite Ea in H'. discriminate.
+Qed.
+
+Lemma reexport_py_lookup : forall pr init n, nodup_paths (module_names pr) = true -> In init pr -> m_is_pkg init = true ->
+  reexport_py pr (m_path init) n = py_lookup pr init (m_imports init) n.
+Proof. intros pr init n Hn Hin Hpk. unfold reexport_py. rewrite (nodup_find pr init Hn Hin), Hpk. reflexivity. Qed.
+
+(* "from t import n" as the analyser resolves it (resolved_modules, one name) *)
+Definition name_model (pr : project) (t : path) (n : name) : path :=
+  match ResolveReExport pr t n with
+  | Some src => src
+  | None => if is_module pr (t ++ [n]) then t ++ [n] else t
+  end.
+
+Lemma resolved_modules_spec : forall pr m ii,
+  resolved_modules pr (empty_graph pr) m ii =
+  match resolveImport pr m ii with
+  | None => []
+  | Some target => if ii_from ii && negb (Nat.eqb (length (ii_names ii)) 0)
+                   then dedup_paths (map (fun x => name_model pr target (in_orig x)) (ii_names ii)) []
+                   else [target]
+  end.
+Proof. reflexivity. Qed.
+
+(* Following a re-export agrees with the binding CPython makes, for every package and name, except in one
+   situation: the __init__ binds n by "from . import n" (n a submodule) and ALSO takes the name n from another
+   module; the specification then lets the submodule win wherever the statement stands. *)
+Theorem reexport_agrees : forall pr, project_shape pr = true -> class_all_hides pr = false ->
+  class_irregular_reexport pr = false -> forall t n,
+  name_model pr t n = resolve_name_py pr t n \/
+  (exists init, In init pr /\ m_is_pkg init = true /\ m_path init = t /\ In n (self_names init) /\
+     is_module pr (t ++ [n]) = true /\ resolve_name_py pr t n = t ++ [n]).
+Proof.
+  intros pr Hshape Hall Hreg t n. pose proof (shape_nodup pr Hshape) as Hn.
+  unfold name_model, resolve_name_py. destruct (find_module pr t) as [m0|] eqn:Ef.
+  - destruct (find_module_Some pr t m0 Ef) as [Hin Hp]. subst t. destruct (m_is_pkg m0) eqn:Epk.
+    + rewrite (ResolveReExport_lookup pr m0 n Hn Hall Hin Epk), (reexport_py_lookup pr m0 n Hn Hin Epk).
+      destruct (shape_module pr m0 Hshape Hin) as [HP _].
+      destruct (list_reexport pr m0 Epk HP (m_imports m0) n) as [H|[H1 [H2 H3]]].
+      * intros s Hs. apply (regular_all pr m0 s Hreg Hin Epk Hs).
+      * left. rewrite H. reflexivity.
+      * right. exists m0. repeat split; auto. rewrite H1. reflexivity.
+    + left. unfold ResolveReExport, reexport_py. rewrite (find_init_spec pr _ Hn), Ef, Epk. reflexivity.
+  - left. unfold ResolveReExport, reexport_py. rewrite (find_init_spec pr _ Hn), Ef. reflexivity.
+Qed.
+
+(* the exceptional situation does not make a difference *)
+Definition no_bad (pr : project) : Prop :=
+  forall init n, In init pr -> m_is_pkg init = true -> In n (self_names init) ->
+    is_module pr (m_path init ++ [n]) = true -> resolve_name_py pr (m_path init) n = m_path init ++ [n] ->
+    name_model pr (m_path init) n = m_path init ++ [n].
+
+Lemma name_agrees : forall pr, project_shape pr = true -> class_all_hides pr = false ->
+  class_irregular_reexport pr = false -> no_bad pr -> forall t n, name_model pr t n = resolve_name_py pr t n.
+Proof.
+  intros pr Hshape Hall Hreg Hnb t n.
+  destruct (reexport_agrees pr Hshape Hall Hreg t n) as [H|[init [Hin [Hpk [Hp [Hs [Hm Hpy]]]]]]]; [exact H|].
+  subst t. rewrite Hpy. apply Hnb; assumption.
+Qed.
+
+(* ---------------------------------------------------------------------------------------- *)
+(* 7. one statement                                                                           *)
+(* ---------------------------------------------------------------------------------------- *)
+Lemma dedup_paths_In : forall l seen x, In x (dedup_paths l seen) <-> In x l /\ ~ In x seen.
+Proof.
+  induction l as [|p l IH]; intros seen x; simpl.
+  - tauto.
+  - destruct (mem_path p seen) eqn:Em.
+    + apply mem_path_In in Em. rewrite IH. split; [tauto|]. intros [[H|H] Hs]; [subst; contradiction|auto].
+    + assert (Hp : ~ In p seen) by (intro Hc; apply mem_path_In in Hc; congruence).
+      simpl. rewrite IH. simpl. split.
+      * intros [H|[H1 H2]]; [subst; auto|]. split; [auto|]. intro Hc. apply H2. auto.
+      * intros [[H|H] Hs]; [auto|]. destruct (path_eqb p x) eqn:E; [apply path_eqb_eq in E; auto|].
+        right. split; [exact H|]. intros [Hc|Hc]; [|contradiction]. subst. rewrite path_eqb_refl in E. discriminate.
+Qed.
+
+Lemma names_agree : forall pr t ns, (forall n, name_model pr t n = resolve_name_py pr t n) -> forall r,
+  In r (filter (is_module pr) (map (fun x => resolve_name_py pr t (in_orig x)) ns)) <->
+  is_module pr r = true /\ In r (dedup_paths (map (fun x => name_model pr t (in_orig x)) ns) []).
+Proof.
+  intros pr t ns H r. rewrite filter_In, dedup_paths_In.
+  rewrite (map_ext (fun x => name_model pr t (in_orig x)) (fun x => resolve_name_py pr t (in_orig x))) by (intro; apply H).
+  simpl. tauto.
+Qed.
+
+Lemma resolve_py_from : forall pr m s t ns, from_target m (i_form s) = Some (t, ns) ->
+  resolve_py pr m s = filter (is_module pr) (map (fun x => resolve_name_py pr t (in_orig x)) ns).
+Proof.
+  intros pr m s t ns H. unfold resolve_py. destruct (i_form s); [discriminate|rewrite H; reflexivity|rewrite H; reflexivity].
+Qed.
+
+Lemma abs_ok_of : forall pr m p, class_implicit_relative pr = false -> In m pr -> In p (abs_paths m) -> abs_ok pr m p = true.
+Proof.
+  intros pr m p Hc Hm Hp. pose proof (existsb_false _ _ m Hc Hm) as H. cbv beta in H.
+  pose proof (existsb_false _ _ p H Hp) as H'. cbv beta in H'. apply negb_false_iff in H'. exact H'.
+Qed.
+
+Lemma ex_singleton : forall {A} (a : A) (Q : A -> Prop), (exists x, In x [a] /\ Q x) <-> Q a.
+Proof. intros A a Q. split; [intros [x [[H|[]] HQ]]; subst; exact HQ|intro H; exists a; simpl; auto]. Qed.
+
+Lemma collect_one_tc : forall s ii, In ii (collect_one s) -> ii_tc ii = i_tc s.
+Proof.
+  intros s ii. unfold collect_one. rewrite walked_true. cbn [negb].
+  destruct (i_form s); intros [H|[]]; subst; reflexivity.
+Qed.
+
+(* the project modules a statement resolves to are the same for the analyser and for CPython *)
+Theorem stmt_agrees : forall pr, project_shape pr = true -> class_implicit_relative pr = false ->
+  class_all_hides pr = false -> class_irregular_reexport pr = false -> no_bad pr ->
+  forall m s, In m pr -> In s (m_imports m) -> forall r,
+  In r (resolve_py pr m s) <->
+  is_module pr r = true /\ exists ii, In ii (collect_one s) /\ In r (resolved_modules pr (empty_graph pr) m ii).
+Proof.
+  intros pr Hshape Himp Hall Hreg Hnb m s Hm Hs r.
+  pose proof (name_agrees pr Hshape Hall Hreg Hnb) as Hname.
+  destruct (shape_module pr m Hshape Hm) as [_ [_ Hst]]. specialize (Hst s Hs). unfold stmt_shape in Hst.
+  unfold collect_one. rewrite walked_true. cbn [negb].
+  destruct (i_form s) as [p|p ns|lv q ns] eqn:Ef; rewrite ex_singleton, resolved_modules_spec; unfold resolveImport;
+    cbn [ii_level ii_module ii_from ii_names].
+  - (* import p *)
+    assert (Hp : p <> []) by (intro; subst; discriminate).
+    assert (Hok : abs_ok pr m p = true).
+    { apply (abs_ok_of pr m p Himp Hm). unfold abs_paths. apply in_flat_map. exists s. rewrite Ef. simpl. auto. }
+    unfold resolve_py. rewrite Ef. change (Nat.ltb 0 0) with false. cbn [andb].
+    destruct (absolute_import_agrees pr m p Hp Hok) as [H|[Hnm H]]; rewrite H.
+    + destruct (is_module pr p) eqn:Em; simpl.
+      * split; [intros [H1|[]]; subst; auto|intros [_ [H1|[]]]; auto].
+      * split; [intros []|intros [H1 [H2|[]]]; subst; congruence].
+    + rewrite Hnm. simpl. tauto.
+  - (* from p import ns *)
+    apply andb_true_iff in Hst. destruct Hst as [Hp Hns].
+    assert (Hp' : p <> []) by (intro; subst; discriminate).
+    assert (Hok : abs_ok pr m p = true).
+    { apply (abs_ok_of pr m p Himp Hm). unfold abs_paths. apply in_flat_map. exists s. rewrite Ef. simpl. auto. }
+    rewrite (resolve_py_from pr m s p ns) by (rewrite Ef; reflexivity).
+    change (Nat.ltb 0 0) with false. rewrite Hns. cbn [andb].
+    destruct (absolute_import_agrees pr m p Hp' Hok) as [H|[Hnm H]]; rewrite H.
+    + apply names_agree. intro n. apply Hname.
+    + simpl. split; [|tauto]. intro Hr. exfalso. apply filter_In in Hr. destruct Hr as [Hr Hmod].
+      apply in_map_iff in Hr. destruct Hr as [x [Hx _]]. unfold resolve_name_py, reexport_py in Hx.
+      rewrite (find_module_None pr p Hnm) in Hx.
+      destruct (is_module pr (p ++ [in_orig x])) eqn:Esub.
+      * rewrite (shape_parent pr p (in_orig x) Hshape Hp' Esub) in Hnm. discriminate.
+      * subst r. congruence.
+  - (* from <dots>q import ns *)
+    apply andb_true_iff in Hst. destruct Hst as [Hlv Hns]. rewrite Hlv, Hns, relative_import_agrees. cbn [andb].
+    unfold resolve_py. rewrite Ef. cbn [from_target].
+    destruct (rel_base (package_of m) lv) as [b|].
+    + apply names_agree. intro n. apply Hname.
+    + simpl. tauto.
+Qed.
+
+(* ---------------------------------------------------------------------------------------- *)
+(* 8. the graphs                                                                              *)
+(* ---------------------------------------------------------------------------------------- *)
+Theorem edges_agree_general : forall pr, project_shape pr = true -> class_implicit_relative pr = false ->
+  class_all_hides pr = false -> class_irregular_reexport pr = false -> no_bad pr ->
+  forall e, In e (edges_model pr) <-> In e (drop_own pr (edges_py pr)).
+Proof.
+  intros pr Hshape Himp Hall Hreg Hnb e. pose proof (shape_nodup pr Hshape) as Hn.
+  rewrite edges_model_spec. unfold drop_own. rewrite filter_In, edges_py_spec. split.
+  - intros [m [ii [r [Hm [Hii [Htc [Hr [Hskip [Heq [Hmr Hne]]]]]]]]]].
+    unfold collectModuleImports in Hii. apply in_flat_map in Hii. destruct Hii as [s [Hs Hii]].
+    split.
+    + exists m, s, r. rewrite <- (collect_one_tc s ii Hii). repeat split; auto.
+      apply (stmt_agrees pr Hshape Himp Hall Hreg Hnb m s Hm Hs r). split; [exact Hmr|]. exists ii. auto.
+    + subst e. cbn [fst snd]. rewrite (init_file_exists_pkg pr m Hn Hm), Hskip. reflexivity.
+  - intros [[m [s [r [Hm [Hs [Htc [Hr [Hne Heq]]]]]]]] Hf].
+    apply (stmt_agrees pr Hshape Himp Hall Hreg Hnb m s Hm Hs r) in Hr. destruct Hr as [Hmr [ii [Hii Hr]]].
+    exists m, ii, r. rewrite (collect_one_tc s ii Hii). repeat split; auto.
+    + unfold collectModuleImports. apply in_flat_map. exists s. auto.
+    + subst e. cbn [fst snd] in Hf. rewrite (init_file_exists_pkg pr m Hn Hm) in Hf. apply negb_true_iff in Hf. exact Hf.
+Qed.
